@@ -61,7 +61,7 @@ def parse_ini(
                 default_right = default_value
             )
             if key.endswith('+'):
-                key = key[:-1]
+                key = key[:-1].rstrip()     # 'KEY +=VALUE' continues 'KEY', like 'KEY+=VALUE'
                 if key in result_dict:
                     value = f"{result_dict[key]}{value}"
                 else:
